@@ -27,6 +27,18 @@ def _copy_tree(dst):
 
 
 def _apply(variant, dst) -> str:
+    if variant.get("alpha"):
+        # every local variable of every function of the package renamed (tools/alpha_rename.py): behaviour preserving
+        import importlib.util
+        spec = importlib.util.spec_from_file_location("alpha_rename", os.path.join(core.VERIF, "tools", "alpha_rename.py"))
+        ar = importlib.util.module_from_spec(spec)
+        spec.loader.exec_module(ar)
+        n = 0
+        for root, _d, files in os.walk(os.path.join(dst, core.PKG)):
+            for f in files:
+                if f.endswith(".py"):
+                    n += ar.rename_file(os.path.join(root, f))
+        return "ok" if n > 1000 else "stale"
     if "seed" in variant:
         pf = os.path.join(core.VERIF, "seeded", variant["seed"], "patch.diff")
         r = subprocess.run(["patch", "-p1", "-s", "-f", "--no-backup-if-mismatch", "-i", pf], cwd=dst, capture_output=True, text=True)
@@ -214,6 +226,8 @@ def run(prop: str, subset=None) -> Dict:
                     vs.append({"id": name, "kind": kind, "seed": name})
     if subset is None:
         vs += computed_variants(prop)
+        # the whole package with every local variable renamed: no verdict may depend on how a local is called
+        vs.append({"id": f"{prop}-auto-alpha", "kind": "preserve", "alpha": True, "file": "(all)", "rule": None})
     if not vs:
         return {"variants": 0, "results": [], "ok": True, "problems": []}
     from multiprocessing import Pool
